@@ -19,19 +19,19 @@
 (***************************************************************************)
 EXTENDS Integers, Sequences, FiniteSets, TLC, Json
 
-Obs == ndJsonDeserialize("cliobs.ndjson")   \* [k, rc, diag, out, panic, timeout, h, x, o, nargs]
+Obs == ndJsonDeserialize("cliobs.ndjson")   \* [k, rc, diag, out, panic, timeout, h, x, o, nargs, norecover]
 
 Phases == <<"args", "open", "parse", "entry", "optimize", "build", "format", "write", "done">>
 
 (* the exits of each phase: <<status, diagnostic class, what is on the output>> *)
 Exits(ph, f) ==
-  CASE ph = "args"   -> {<<2, "flag", "none">>} \cup (IF f.nargs > 1 THEN {<<1, "narg", "usage">>} ELSE {})
+  CASE ph = "args"   -> {<<2, "flag", "usage">>, <<2, "flag", "none">>} \cup (IF f.nargs > 1 THEN {<<1, "narg", "usage">>} ELSE {})
                         \cup (IF f.h THEN {<<0, "none", "usage">>} ELSE {})
     [] ph = "open"   -> {<<2, "open", "none">>}
     [] ph = "parse"  -> {<<3, "parse", "none">>}
     [] ph = "entry"  -> {<<9, "arg", "none">>} \cup (IF f.x THEN {<<0, "none", "none">>} ELSE {})
     [] ph = "optimize" -> {}
-    [] ph = "build"  -> {<<5, "build", "none">>, <<4, "create", "none">>}
+    [] ph = "build"  -> {<<5, "build", "none">>, <<4, "open", "none">>}
     [] ph = "format" -> {<<6, "format", "raw">>}
     [] ph = "write"  -> {<<7, "write", "none">>, <<8, "close", "none">>}
     [] ph = "done"   -> {<<0, "none", "gofile">>}
@@ -54,7 +54,8 @@ Verdict(o) ==
   LET f == [h |-> o.h, x |-> o.x, nargs |-> o.nargs]
       t == <<o.rc, o.diag, o.out>> IN
   IF o.timeout THEN <<"hang", 0>>
-  ELSE IF o.panic THEN <<"go-panic-trace", o.rc>>
+  ELSE IF o.panic THEN (IF o.norecover THEN <<"same", 0>>      \* -no-recover: "do not recover from a panic ... to access the panic stack"
+                        ELSE <<"go-panic-trace", o.rc>>)
   ELSE IF o.rc = 0 /\ o.diag # "none" THEN <<"rejected-with-exit-0", 0>>
   ELSE IF ~Allowed(t) THEN <<"not-allowed", o.rc>>
   ELSE IF t \notin Reachable(f) THEN <<"not-reachable", o.rc>>
